@@ -5,7 +5,9 @@ import (
 	"fmt"
 	"reflect"
 	"sort"
+	"strings"
 	"time"
+	"verif/refssz"
 
 	"github.com/protolambda/zrnt/eth2/beacon"
 	"github.com/protolambda/zrnt/eth2/beacon/common"
@@ -303,7 +305,30 @@ func runC07(b *fw.B) {
 			sc.Epochs = min(sc.Epochs, 9)
 		}
 		b.Case("chain", sc.String())
+		// a clone of the context, taken at some step and left behind: after the original has crossed an epoch boundary (rotating its
+		// shufflings), the clone must still answer for the state it was taken at
+		var snapEpc *common.EpochsContext
+		var snapRef *refspec.State
+		var snapZ common.BeaconState
+		var snapWhere string
+		var chain *sim.Chain
 		hooks := chainHooks{afterStep: func(c *sim.Chain, where string, isBlock bool, built *sim.Built) bool {
+			chain = c
+			if snapEpc != nil && c.Sp.CurrentEpoch(c.Ref) > c.Sp.CurrentEpoch(snapRef) {
+				b.Inc("clones_left_behind_compared_after_the_original_crossed_an_epoch_boundary")
+				ok := compareAssignments(b, func(sig, what string) {
+					b.Violate("clone-left-behind/"+sig, "(clone of the context taken at "+snapWhere+", judged after the original moved on to "+where+") "+what+" — scenario "+sc.String(), map[string]any{"scenario": sc.String()})
+				}, c.ZSpec, c.Sp, snapRef, snapZ, snapEpc, snapWhere)
+				snapEpc = nil
+				if !ok {
+					return false
+				}
+			}
+			if snapEpc == nil && b.Rng.IntN(3) == 0 {
+				if cp, err := c.Z.BeaconState.CopyState(); err == nil {
+					snapEpc, snapRef, snapZ, snapWhere = c.Epc.Clone(), c.Ref.Copy(), cp, where
+				}
+			}
 			if c.Ref.Slot%c.Sp.SLOTS_PER_EPOCH > 1 && b.Rng.IntN(4) != 0 {
 				return true
 			}
@@ -328,6 +353,20 @@ func runC07(b *fw.B) {
 		}}
 		runChain(b, sc, hooks, func(m *sim.Mismatch, trace []string) {
 			if m.Kind != "harness" && m.Kind != "genesis" {
+				// a transition mismatch is C01/C02's business, except where the state's own sync committees are what differs:
+				// their members "are exactly those the specification computes"
+				diff := m.Diff
+				if chain != nil && m.Kind == "state-mismatch" {
+					if zb, err := sim.ZrntStateBytes(chain.Z); err == nil && sim.ZrntFork(chain.Z) == chain.Ref.Fork {
+						diff = refssz.DiffBytes(chain.Sp.S.State[chain.Ref.Fork], chain.Sp.S.StateBytes(chain.Ref), zb, 1<<20)
+					}
+				}
+				for _, d := range diff {
+					if cl := diffPathClass(d); strings.HasPrefix(cl, "current_sync_committee") || strings.HasPrefix(cl, "next_sync_committee") {
+						b.Violate("state/"+strings.SplitN(cl, ".", 2)[0]+"-differs-from-the-specs", fmt.Sprintf("%s: %s — scenario %s", m.What, d, sc.String()), map[string]any{"scenario": sc.String(), "diff": m.Diff})
+						return
+					}
+				}
 				b.Inc("chain_stopped_by_transition_mismatch_not_judged_here")
 			}
 		})
